@@ -12,7 +12,8 @@ RULE = (
     "identities, 1-4 chains incl. blank PDB chain, negative/zero numbers, insertion codes, HETATM groups, alternate locations with "
     "split occupancies, repeated names, atom pairs 0.2-0.3 A and 0.7-0.9 A apart, mmCIF null markers '?' and '.' for icode/alt-loc/"
     "charge/occupancy) emitted as PDB and as mmCIF by an independent emitter; corpus tables re-emitted; every model of the NMR "
-    "ensembles. parser.read_3d_structure is monitored against the expected atom multiset computed from the abstract table. "
+    "ensembles; the corpus files themselves (mmCIF with entity / modified-residue categories, PDB with MODRES, gzip) against a table read by an "
+    "independent tokenizer / column reader, with and without nucleic_acid_only. parser.read_3d_structure is monitored against the expected atom multiset computed from the abstract table. "
     "Non-trivial = table has >=2 atoms in the requested model; distinct = canonical JSON hash of the case descriptor."
 )
 ASSUMPTIONS = ["independent emitter vmon/emit.py (PDB column layout / mmCIF loop_)", "a dropped atom is justified by a same-name copy or a <0.5 A neighbour of occupancy >= its own; ties and null occupancies accept any survivor",
@@ -208,6 +209,14 @@ def cases(shard, nshards, seed, tier):
         for m in ([1, 2, 10] if tier == "quick" else list(range(1, 11))):
             if mine():
                 yield {"family": "nmr-ensemble", "file": fn, "model": m}
+    # the corpus files themselves (with their entity / modified-residue categories, MODRES records,
+    # quoted atom names, gzip): the abstract table comes from our own tokenizer / column reader
+    for fn in gen3d.corpus_files():
+        if tier == "quick" and os.path.getsize(os.path.join(core.REPO, fn)) > 250_000:
+            continue
+        for na_only in (False, True):
+            if mine():
+                yield {"family": "corpus-raw", "file": fn, "nucleic_acid_only": na_only}
 
 
 def _read(text, fmt, model):
@@ -241,8 +250,21 @@ def run_case(case, rec):
         else:
             marker = rng.choice(["?", "."])
             per = {c: rng.choice(["?", "."]) for c in ("pdbx_PDB_ins_code", "label_alt_id", "occupancy", "pdbx_formal_charge", "type_symbol")} if rng.random() < 0.5 else {}
-            text = emit.emit_cif(rows, null=marker, nulls=per, label_seq=rng.choice(["index", "auth"]))
-            desc = {"i": case["i"], "fmt": fmt, "null": marker, "nulls": per}
+            extra = None
+            if rng.random() < 0.35:
+                # modified-residue and entity categories, as deposited files carry them (names stay as written)
+                mods, seen = [], set()
+                for r in rows:
+                    k = (r["chain"], r["resseq"], r["icode"], r["resname"])
+                    if r["resname"] in ("PSU", "5MC", "2MG", "H2U") and k not in seen:
+                        seen.add(k)
+                        mods.append([str(len(mods) + 1), r["chain"], r["resname"], str(r["resseq"]), r["chain"], r["resname"], str(r["resseq"]), r["icode"] or rng.choice(["?", "."]),
+                                     {"PSU": "U", "5MC": "C", "2MG": "G", "H2U": "U"}[r["resname"]], "modified"])
+                extra = [("entity", ["id", "type"], [["1", "polymer"]], "kv"), ("entity_poly", ["entity_id", "type"], [["1", rng.choice(["polyribonucleotide", "polypeptide(L)"])]], "kv")]
+                if mods:
+                    extra.append(("pdbx_struct_mod_residue", ["id", "label_asym_id", "label_comp_id", "label_seq_id", "auth_asym_id", "auth_comp_id", "auth_seq_id", "PDB_ins_code", "parent_comp_id", "details"], mods, "loop"))
+            text = emit.emit_cif(rows, null=marker, nulls=per, label_seq=rng.choice(["index", "auth"]), extra_cats=extra)
+            desc = {"i": case["i"], "fmt": fmt, "null": marker, "nulls": per, "extra-categories": [c[0] for c in extra or []]}
         models = sorted({r["model"] for r in rows})
         reqs = [None] + models + [models[-1] + 7]
         rec.mark_nontrivial(len(rows) >= 2)
@@ -271,6 +293,8 @@ def run_case(case, rec):
         finally:
             _cur["expect"] = None
         return
+    if fam == "corpus-raw":
+        return _corpus_raw(case, rec)
     # NMR ensembles: the file itself; the abstract table comes from our own tokenizer
     from vmon.oracles import ciftok
 
@@ -297,6 +321,87 @@ def run_case(case, rec):
                 pass
     finally:
         _cur["expect"] = None
+
+
+def _raw_rows(path, text):
+    """Abstract rows of a corpus file, read independently of rnapolis.parser."""
+    from vmon.oracles import ciftok
+
+    rows = []
+    if any(l.startswith("_atom_site.") for l in text.splitlines()[:20000]):
+        fr = ciftok.frame(text)
+        items, rws = fr["cats"]["atom_site"]
+        ix = {n: items.index(n) for n in items}
+        for r in rws:
+            ic = r[ix["pdbx_PDB_ins_code"]] if "pdbx_PDB_ins_code" in ix else "?"
+            oc = r[ix["occupancy"]] if "occupancy" in ix else "?"
+            rows.append({"rec": r[ix["group_PDB"]], "serial": int(r[ix["id"]]), "name": r[ix["label_atom_id"]], "alt": None, "resname": r[ix["auth_comp_id"]], "chain": r[ix["auth_asym_id"]],
+                         "resseq": int(r[ix["auth_seq_id"]]), "icode": None if ic in ("?", ".") else ic, "x": float(r[ix["Cartn_x"]]), "y": float(r[ix["Cartn_y"]]), "z": float(r[ix["Cartn_z"]]),
+                         "occ": None if oc in ("?", ".") else float(oc), "b": None, "element": None, "charge": None,
+                         "model": int(r[ix["pdbx_PDB_model_num"]]) if "pdbx_PDB_model_num" in ix else 1})
+        return rows, "cif"
+    model = 1
+    for line in text.splitlines():
+        if line.startswith("MODEL"):
+            model = int(line[10:14])
+        elif line.startswith(("ATOM", "HETATM")):
+            rows.append({"rec": line[:6].strip(), "serial": len(rows) + 1, "name": line[12:16].strip(), "alt": None, "resname": line[17:20].strip(), "chain": line[21],
+                         "resseq": int(line[22:26]), "icode": line[26].strip() or None, "x": float(line[30:38]), "y": float(line[38:46]), "z": float(line[46:54]),
+                         "occ": float(line[54:60]), "b": None, "element": None, "charge": None, "model": model})
+    return rows, "pdb"
+
+
+STANDARD_NT = {"A", "C", "G", "U", "DA", "DC", "DG", "DT"}
+
+
+def _corpus_raw(case, rec):
+    import gzip
+
+    from rnapolis import parser
+    from rnapolis.util import handle_input_file
+
+    path = os.path.join(core.REPO, case["file"])
+    text = gzip.open(path, "rt").read() if path.endswith(".gz") else open(path).read()
+    try:
+        rows, fmt = _raw_rows(path, text)
+    except Exception as e:
+        rec.undecided("atoms.as-written", f"own reader rejects the corpus file: {type(e).__name__}")
+        return
+    rec.mark_nontrivial(len(rows) >= 2)
+    models = []
+    for r in rows:
+        if r["model"] not in models:
+            models.append(r["model"])
+    reqs = [None] + models[:2] + ([models[-1]] if len(models) > 2 else [])
+    na_only = case["nucleic_acid_only"]
+    for req in reqs:
+        desc = {"file": case["file"], "model": req, "nucleic_acid_only": na_only}
+        fh = handle_input_file(path)
+        if not na_only:
+            _cur["expect"] = {"rows": rows, "fmt": fmt, "model": req, "desc": desc}
+            try:
+                try:
+                    parser.read_3d_structure(fh, req)
+                except Exception:
+                    pass
+            finally:
+                _cur["expect"] = None
+            continue
+        # nucleic-acid-only reading: whatever is kept is kept whole and in order, standard nucleotides are kept
+        try:
+            full = parser.read_3d_structure(handle_input_file(path), req)
+            only = parser.read_3d_structure(fh, req, nucleic_acid_only=True)
+        except Exception as e:
+            rec.violation("read.no-crash", {"case": desc, "info": repr(e)[:300]}, mechanism=f"crash:{type(e).__name__}")
+            continue
+        key = lambda r: (r.model, _ident(r, fmt), tuple((a.name, a.x, a.y, a.z, a.occupancy) for a in r.atoms))
+        fk, ok_ = [key(r) for r in full.residues], [key(r) for r in only.residues]
+        it = iter(fk)
+        subseq = all(any(x == y for y in it) for x in ok_)
+        rec.check("filter.kept-residues-whole-and-in-order", subseq, lambda: {"case": desc, "kept": len(ok_), "all": len(fk)})
+        kept = {k[:2] for k in ok_}
+        lost = [k[1] for k in fk if k[1][3] in STANDARD_NT and k[:2] not in kept and len(k[2]) >= 6]
+        rec.check("filter.standard-nucleotides-kept", not lost, lambda: {"case": desc, "lost": lost[:6]})
 
 
 def classify(v):
